@@ -36,6 +36,12 @@ var keywords = map[string]bool{"do": true, "if": true, "for": true, "int": true,
 
 func gen(t *rapid.T) Case {
 	p := jgen.GenProject(t, jgen.Opts{Bodies: true, MultiByte: true, Interfaces: true, MaxUnits: 4, MaxMethods: 4})
+	// some files use CRLF line ends: columns and lines are unaffected, every other byte must survive
+	for i := range p.Files {
+		if strings.HasSuffix(p.Files[i].Path, ".java") && rapid.IntRange(0, 7).Draw(t, "crlf") == 0 {
+			p.Files[i].Text = strings.ReplaceAll(p.Files[i].Text, "\n", "\r\n")
+		}
+	}
 	c := Case{Project: p, CLI: rapid.IntRange(0, 14).Draw(t, "cli") == 0}
 	type cand struct {
 		class, name string
